@@ -23,6 +23,8 @@ INJ = {"IGNORE": bytes([2]) + struct.pack(">I", 3) + b"abc",
        "DEBUG": bytes([4, 0]) + struct.pack(">I", 2) + b"hi" + struct.pack(">I", 0),
        "UNIMPLEMENTED": bytes([3]) + struct.pack(">I", 0),
        "TYPE192": bytes([192]) + b"xyz",
+       "GLOBAL_REQUEST": bytes([80]) + struct.pack(">I", 13) + b"tcpip-forward" + b"\x01" + struct.pack(">I", 9) + b"127.0.0.1" + struct.pack(">I", 0),
+       "CHANNEL_OPEN": bytes([90]) + struct.pack(">I", 7) + b"session" + struct.pack(">III", 0, 2097152, 32768),
        "KEXINIT2": None}       # a copy of the sender's own KEXINIT
 STRICT = ((True, True), (True, True), (True, True), (True, False), (False, True), (False, False))
 POSITIONS = 4
@@ -165,7 +167,8 @@ def scenario(sim):
         if victim.is_active() and victim.initial_kex_done:
             raise Violation(("C09", "victim-alive-after-injection", inj), "victim still active with initial kex done", desc)
         # kill point: victim has received both the injected message and the peer's KEXINIT
-        inj_type = {"IGNORE": 2, "DEBUG": 4, "UNIMPLEMENTED": 3, "TYPE192": 192, "KEXINIT2": 20}[inj]
+        inj_type = {"IGNORE": 2, "DEBUG": 4, "UNIMPLEMENTED": 3, "TYPE192": 192, "KEXINIT2": 20, "GLOBAL_REQUEST": 80,
+                    "CHANNEL_OPEN": 90}[inj]
         rx = [e for e in p.plog if e[2] == vside and e[3] == "rx"]
         seen_kexinit = 0
         seen_inj = False
@@ -194,7 +197,8 @@ def scenario(sim):
             sim.probe("nonstrict_session_survived")
         # non-vacuity of the injector: without strict mode an injected IGNORE/DEBUG is read and the
         # victim carries on with the exchange (it later trips over the MAC, which is not our business)
-        inj_type = {"IGNORE": 2, "DEBUG": 4, "UNIMPLEMENTED": 3, "TYPE192": 192, "KEXINIT2": 20}[inj]
+        inj_type = {"IGNORE": 2, "DEBUG": 4, "UNIMPLEMENTED": 3, "TYPE192": 192, "KEXINIT2": 20, "GLOBAL_REQUEST": 80,
+                    "CHANNEL_OPEN": 90}[inj]
         rxs = [e[0] for e in p.plog if e[2] == vside and e[3] == "rx" and e[4] == inj_type]
         if rxs and any(e[2] == vside and e[3] == "tx" and e[0] > rxs[0] and e[4] in (21, 31, 33, 30, 32) for e in p.plog):
             sim.probe("nonstrict_victim_continued_kex_after_injection")
@@ -208,18 +212,32 @@ def honest(sim, j):
     cipher = tuple(wiretap.CIPHERS)[(j // len(KEXES)) % len(wiretap.CIPHERS)]
     link = Link(sim, latency=((0.0, 0.01)[sim.choose(2)],) * 2)
     p = ssh.tapped_pair(sim, link=link)
+    comp = ("none", "none", "zlib", "zlib@openssh.com")[sim.choose(4)]
     for t in (p.tc, p.ts):
-        ssh.configure(t, kex=kex, cipher=cipher)
+        ssh.configure(t, kex=kex, cipher=cipher, comp=comp)
     nrekey = sim.choose(3)
-    desc = {"honest": True, "kex": kex, "cipher": cipher, "rekeys": nrekey}
+    desc = {"honest": True, "kex": kex, "cipher": cipher, "compression": comp, "rekeys": nrekey}
+
+    def probe_seqno():
+        # each side answers an unassigned message type with UNIMPLEMENTED(sequence number it counted for that packet):
+        # the only place where a peer's INBOUND counter shows on the wire (AEAD suites do not put it into a MAC)
+        from paramiko import Message
+        for t in (p.tc, p.ts):
+            m = Message()
+            m.add_byte(bytes([192]))
+            m.add_string("probe")
+            t.packetizer.send_message(m)
+        ssh.quiesce(sim, [link], (), settle=0.1, limit=10)
     try:
         p.start(timeout=60)
         ok = session_works(sim, p)
+        probe_seqno()
         for r in range(nrekey):
             (p.tc, p.ts)[sim.choose(2)].renegotiate_keys()
             ch = p.tc.open_session(timeout=20)
             sch = p.ts.accept(20)
             ok = ok and ssh.echo_round(sim, ch, sch, 100, 100)
+            probe_seqno()
     except Exception as e:
         raise Violation(("C09", "honest-strict-session-failed", type(e).__name__), "honest strict session failed: %r" % (e,), desc)
     if not ok:
@@ -241,6 +259,15 @@ def honest(sim, j):
             if prev == 21 and pk.seqno != 0:
                 raise Violation(("C09", "sequence-numbers-not-reset", "tap"), "seqno %d after NEWKEYS" % pk.seqno, desc)
             prev = pk.ptype
+    # UNIMPLEMENTED replies must name the sequence number the wiretap counted for the probe they answer
+    for d in (0, 1):
+        probes = [pk.seqno for dd, pk in tap.log if dd == d and pk.ptype == 192]
+        answers = [struct.unpack(">I", pk.payload[1:5])[0] for dd, pk in tap.log if dd == 1 - d and pk.ptype == 3 and len(pk.payload) >= 5]
+        if probes != answers:
+            raise Violation(("C09", "sequence-numbers-not-reset", "inbound-counter-of-" + ("server" if d == 0 else "client")),
+                            "%s answered probes sent with sequence numbers %s by UNIMPLEMENTED%s: its inbound counter is "
+                            "not the one strict kex prescribes" % ("server" if d == 0 else "client", probes, answers), desc)
+        sim.probe("inbound_counters_checked", len(probes))
     sim.probe("honest_strict_sessions")
     p.close()
-    return {"sample": desc, "nontrivial": True, "case_key": "honest|%s|%s|%d" % (kex, cipher, nrekey), "counts": ["honest"]}
+    return {"sample": desc, "nontrivial": True, "case_key": "honest|%s|%s|%s|%d" % (kex, cipher, comp, nrekey), "counts": ["honest"]}
